@@ -1,6 +1,7 @@
 package checks
 
 import (
+	"github.com/fiorix/go-diameter/v4/diam/dict"
 	"bytes"
 	"encoding/json"
 	"fmt"
@@ -258,6 +259,29 @@ func runC02(ctx *ev.Ctx) {
 			ctx.Report(c01Class(mt, what), generalise(what), what+" | case: "+mt.Desc(), map[string]interface{}{"tree": mt})
 		}
 	})
+	// Time values with a sub-second part: the wire carries the whole seconds (the fraction is
+	// dropped, never rounded), for every value of the alphabet's seconds x six fractions
+	if ctx.Mine() {
+		for _, sec := range []int64{-2208988800, -1, 0, 1, 1700000000, 2085978495, 2085978496, 4294967295 - 2208988800, 3000000000} {
+			for _, ns := range []int64{0, 1, 499999999, 500000000, 750000000, 999999999} {
+				t := time.Unix(sec, ns)
+				ctx.Eval(ev.Mix(0x71AE, uint64(sec), uint64(ns)))
+				want := refcodec.U32(uint32(uint64(sec+2208988800) & 0xffffffff))
+				got := datatype.Time(t).Serialize()
+				if !bytes.Equal(got, want) {
+					what := fmt.Sprintf("Time %s (Unix %d s + %d ns) is encoded as %x, the whole-seconds NTP value is %x", t.UTC().Format(time.RFC3339Nano), sec, ns, got, want)
+					ctx.Report("", generalise(what), what, nil)
+				}
+				m := diam.NewMessage(271, 0x80, 3, 1, 1, dict.Default)
+				m.NewAVP(55, 0x40, 0, datatype.Time(t)) // Event-Timestamp
+				b, _ := m.Serialize()
+				if len(b) != 32 || !bytes.Equal(b[28:32], want) {
+					what := fmt.Sprintf("a message carrying Time %s serialises its Event-Timestamp as %x, the reference encoding is %x", t.UTC().Format(time.RFC3339Nano), b[len(b)-4:], want)
+					ctx.Report("", generalise(what), what, nil)
+				}
+			}
+		}
+	}
 	// decode - edit the decoded message - decode another message: what the first receiver does with
 	// its message (members added to a decoded group, a member-less one in particular; AVPs appended;
 	// values overwritten) must not show in a message decoded afterwards
@@ -338,7 +362,7 @@ func runC02(ctx *ev.Ctx) {
 			ctx.Report("", generalise(what), what+" | case: "+h.Desc(), map[string]interface{}{"hist": h})
 		}
 	})
-	ctx.Rule = rule + " PLUS every sequence of <=4 (thorough 5) assembly operations {NewAVP by int / uint32 / name, AddAVP, InsertAVP, Marshal, a Marshal that is rejected} over seven atoms with payload length mod 4 = 0..3, with and without vendor id (one with a vendor id but no V flag given), checking Header.MessageLength and the reference image after every operation; PLUS decode - edit - decode: after a decoded message has been edited (members added to its decoded groups, member-less ones included) a second message of the same wire image must read back as encoded. PLUS complete sweeps (see sweep_* keys). WriteTo images are taken by a destination that lets another message pass through WriteTo on another writer before it consumes its bytes."
+	ctx.Rule = rule + " PLUS every sequence of <=4 (thorough 5) assembly operations {NewAVP by int / uint32 / name, AddAVP, InsertAVP, Marshal, a Marshal that is rejected} over seven atoms with payload length mod 4 = 0..3, with and without vendor id (one with a vendor id but no V flag given), checking Header.MessageLength and the reference image after every operation; PLUS Time values with sub-second parts (9 seconds values x 6 fractions: the fraction is dropped). PLUS decode - edit - decode: after a decoded message has been edited (members added to its decoded groups, member-less ones included) a second message of the same wire image must read back as encoded. PLUS complete sweeps (see sweep_* keys). WriteTo images are taken by a destination that lets another message pass through WriteTo on another writer before it consumes its bytes."
 	ctx.Assume = []string{"refcodec (independent RFC 6733 encoder/decoder, written from the RFC) is correct; self-tested against the RFC layouts"}
 }
 
